@@ -43,6 +43,27 @@ func smallG1(n int) []bn254.G1Affine {
 	return out
 }
 
+// g1WithXNear finds a curve point whose x coordinate is the first valid one at or above start.
+func g1WithXNear(start *big.Int) (bn254.G1Affine, bool) {
+	var three fp.Element
+	three.SetUint64(3)
+	x := new(big.Int).Set(start)
+	for tries := 0; tries < 200; tries++ {
+		var fx, rhs, y fp.Element
+		fx.SetBigInt(x)
+		rhs.Square(&fx).Mul(&rhs, &fx).Add(&rhs, &three)
+		if y.Sqrt(&rhs) != nil {
+			var pt bn254.G1Affine
+			pt.X, pt.Y = fx, y
+			if pt.IsOnCurve() {
+				return pt, true
+			}
+		}
+		x.Add(x, big.NewInt(1))
+	}
+	return bn254.G1Affine{}, false
+}
+
 type c10Proof struct {
 	pt    ref.Points
 	hash  *big.Int // nil for synthetic (not valid) proofs
@@ -98,6 +119,21 @@ func runC10(o *cli.Opts, run *evid.Run) {
 		b.ScalarMultiplication(&g2, big.NewInt(int64(1+i%7)))
 		cpt := small[(i*7+3)%len(small)]
 		proofs = append(proofs, c10Proof{ref.Points{A: a, B: b, C: cpt}, nil, "synthetic", fmt.Sprintf("C10/synthetic/%d", i)})
+	}
+	// coordinates of every bit length 1..254 (x = 2^(k-1) + small): machine-word boundaries (63/64/65 bits …) included
+	for k := 1; k <= 253; k++ {
+		pt, ok := g1WithXNear(new(big.Int).Lsh(big.NewInt(1), uint(k-1)))
+		if !ok {
+			continue
+		}
+		var b bn254.G2Affine
+		b.ScalarMultiplication(&g2, big.NewInt(int64(2+k%5)))
+		other := small[k%len(small)]
+		if k%2 == 0 {
+			proofs = append(proofs, c10Proof{ref.Points{A: pt, B: b, C: other}, nil, "synthetic-bitlen", fmt.Sprintf("C10/bitlen/%d", k)})
+		} else {
+			proofs = append(proofs, c10Proof{ref.Points{A: other, B: b, C: pt}, nil, "synthetic-bitlen", fmt.Sprintf("C10/bitlen/%d", k)})
+		}
 	}
 	check := func(p c10Proof) {
 		if !run.Wants(p.label) {
@@ -179,6 +215,7 @@ func runC10(o *cli.Opts, run *evid.Run) {
 	run.Require("proofs with a coordinate shorter than 32 bytes", run.GetInt("proofs_with_short_coordinate"), 50)
 	run.Require("real proofs", run.ClassTally("real").Cases, 1)
 	run.Require("synthetic tiny-coordinate proofs", run.ClassTally("synthetic").Cases, 20)
+	run.Require("synthetic proofs sweeping the coordinate bit length", run.ClassTally("synthetic-bitlen").Cases, 200)
 }
 
 func coordStrings(c [8]*big.Int) []string {
